@@ -426,19 +426,24 @@ class ConnMonitor:
                 {'node': handle.name, 'message': type(ev.message).__qualname__,
                  'stream': [s[1] for s in self.streams.get(cid, [])]}))
 
-    def final_check(self):
-        """After the run has settled: every connection that ever reported a
-        state must have reported CLOSED exactly once (server: may be reopened)."""
+    def final_check(self, all_closed: bool = False):
+        """After the run has settled (and, with ``all_closed``, after the client
+        was stopped): every connection that ever reported a state has reported
+        CLOSED (exactly once is enforced online)."""
         for cid, stream in self.streams.items():
             conn = self.conns[cid]
             kind = self.kind(conn)
             if kind == 'listening':
                 continue
             states = [s[1] for s in stream]
-            if states and states[-1] != 'CLOSED':
-                # still open at the end is fine only if it really is open
-                if conn.state.name in ('CLOSED',) or kind == 'never':
-                    self.violations.append((f'closed-never-reported:{kind}', {'stream': states}))
+            if not states or states[-1] == 'CLOSED':
+                continue
+            wr = getattr(conn, '_writer', None)
+            really_open = wr is not None and not wr.transport._lost
+            if all_closed or not really_open:
+                self.violations.append((
+                    f'closed-never-reported:{kind}:last-{states[-1]}',
+                    {'stream': states, 'socket_open': really_open}))
 
     def report(self, res: dict):
         from . import runner
